@@ -1699,6 +1699,46 @@ pub static PRIMS: &[Prim] = &[
         }
         _ => Err(ty("not a vector")),
     }),
+    pure!("vector-fill!", 2, Some(2), |a| match &a[0] {
+        Val::Vector(v) => {
+            for slot in v.borrow_mut().iter_mut() {
+                *slot = a[1].clone();
+            }
+            Ok(Val::Unspec)
+        }
+        _ => Err(ty("not a vector")),
+    }),
+    pure!("vector-copy", 1, Some(2), |a| match &a[0] {
+        Val::Vector(v) => {
+            let v = v.borrow();
+            let start = if a.len() > 1 { index(&a[1])? } else { 0 };
+            if start > v.len() {
+                return Err(ty("start out of range"));
+            }
+            Ok(Val::Vector(Rc::new(RefCell::new(v[start..].to_vec()))))
+        }
+        _ => Err(ty("not a vector")),
+    }),
+    pure!("vector-copy!", 3, Some(5), |a| match (&a[0], &a[2]) {
+        (Val::Vector(to), Val::Vector(from)) => {
+            let at = index(&a[1])?;
+            let src: Vec<Val> = from.borrow().clone();
+            let start = if a.len() > 3 { index(&a[3])? } else { 0 };
+            let end = if a.len() > 4 { index(&a[4])? } else { src.len() };
+            if start > end || end > src.len() {
+                return Err(ty("source range out of bounds"));
+            }
+            let mut to = to.borrow_mut();
+            if at > to.len() || to.len() - at < end - start {
+                return Err(ty("target too small"));
+            }
+            for (k, v) in src[start..end].iter().enumerate() {
+                to[at + k] = v.clone();
+            }
+            Ok(Val::Unspec)
+        }
+        _ => Err(ty("not a vector")),
+    }),
     pure!("vector->list", 1, Some(1), |a| match &a[0] {
         Val::Vector(v) => Ok(list_of(v.borrow().clone())),
         _ => Err(ty("not a vector")),
